@@ -17,10 +17,10 @@ DRIVER = "FileTokens"
 RULE = ("file-token engine: 1-3 real CounterToken instances + schedulers on one directory, totals 1-4, requests 1-total, "
         "<= 6 jobs (job dependencies, a private process-level token to force aborted starts, failing jobs), random schedules with "
         "delayed/reordered file-system events and watcher reclaims; fault classes none / scheduler dropped (and restarted) while "
-        "holding / reader between create and write; non-trivial = >= 2 schedulers, >= 2 jobs on the file token and at least one "
+        "holding / reader between create and write / watcher deleting between is_file and unlink of a release; non-trivial = >= 2 schedulers, >= 2 jobs on the file token and at least one "
         "stale recount or failed acquisition")
-FAULT_CLASSES = [({}, 0.45), ({"drop": True, "restart": True}, 0.2), ({"race": True}, 0.15),
-                 ({"drop": True, "restart": True, "race": True}, 0.2)]
+FAULT_CLASSES = [({}, 0.4), ({"drop": True, "restart": True}, 0.2), ({"race": True}, 0.1), ({"racedel": True}, 0.1),
+                 ({"drop": True, "restart": True, "race": True, "racedel": True}, 0.2)]
 
 
 # ------------------------------------------------------------------------------------------------ generator
@@ -90,6 +90,42 @@ def _run_one(args):
     return seed, spec, faults, r
 
 
+def small_specs():
+    J = lambda s, i, deps, code=0: {"sched": s, "ident": i, "deps": deps, "code": code, "marker": False}
+    return [
+        {"total": 1, "nsched": 2, "ptokens": [], "jobs": [J(0, 0, [["f", 1]]), J(1, 1, [["f", 1]])]},
+        {"total": 2, "nsched": 2, "ptokens": [1], "jobs": [J(0, 0, [["f", 2], ["t", 0, 1]]), J(0, 1, [["t", 0, 1], ["f", 1]]), J(1, 2, [["f", 1]], 1)]},
+    ]
+
+
+def _explore(args):
+    """depth-first enumeration of the schedules of a small workload (stateless replay), no faults"""
+    spec, limit = args
+    from ..impl import tokeng
+    stack, count, fails, complete = [[]], 0, [], True
+    while stack:
+        if count >= limit:
+            complete = False
+            break
+        prefix = stack.pop()
+        done = []
+
+        def chooser(w, ch, fch):
+            if len(done) < len(prefix):
+                ev = prefix[len(done)]
+            else:
+                for alt in ch[1:]:
+                    stack.append(done + [alt])
+                ev = ch[0]
+            done.append(ev)
+            return ev
+        r = tokeng.run_schedule(spec, chooser, None, max_events=400)
+        count += 1
+        for v in r["viol"]:
+            fails.append((v, r["events"]))
+    return spec, count, complete, fails[:20], len(fails)
+
+
 def _replay_one(args):
     spec, events = args
     from ..impl import tokeng
@@ -119,7 +155,7 @@ def compare(oplog, outs):
             if m.get(key) != obs[key]:
                 diff[key] = {"impl": obs[key], "model": m.get(key)}
         for p, (pi, pm) in enumerate(zip(obs["procs"], m.get("procs", []))):
-            if pi != pm:
+            if pi != pm and p != out.get("skip_proc"):
                 diff[f"proc{p}"] = {k2: {"impl": pi[k2], "model": pm.get(k2)} for k2 in pi if pi[k2] != pm.get(k2)}
         if diff:
             return k, op, diff
@@ -146,6 +182,16 @@ def run(ctx, prop, n_quick, n_thorough):
     with mp.Pool(min(16, mp.cpu_count())) as pool:
         flags = probe_flags(ctx, pool)
         results = pool.map(_run_one, [(base + i, flags) for i in range(n)], chunksize=8)
+        exh = pool.map(_explore, [(w, ctx.scale(60, 1500)) for w in small_specs()])
+    nsched = 0
+    for spec, count, complete, fails, nfails in exh:
+        nsched += count
+        for (p, key, what), events in fails:
+            if p == prop:
+                ctx.monitor_fail(key, f"{what} [file-token engine, enumerated schedule; spec {json.dumps(spec)}]",
+                                 {"engine": "tokeng", "spec": spec, "events": events})
+    ctx.evaluations += nsched
+    ctx.extra_cov["file_token_enumerated_schedules"] = {"workloads": len(exh), "schedules": nsched, "all_enumerated": all(e[2] for e in exh)}
     lines, slices = [], []
     for seed, spec, faults, r in results:
         oplog = r["oplog"]
@@ -165,7 +211,7 @@ def run(ctx, prop, n_quick, n_thorough):
         for op, out, _ in oplog:
             ctx.count("ft_token_op", op[0] + ("" if out["ok"] else ":fail"))
         for e in r["events"]:
-            if e[0] in ("drop", "restart", "race", "reclaim", "jobgone"):
+            if e[0] in ("drop", "restart", "race", "racedel", "reclaim", "jobgone"):
                 ctx.count("ft_fault_event", e[0])
         ctx.count("ft_avail_above_total_at_end(F23)", any(P["avail"] > spec["total"] for P in r["final"]["procs"]))
         for p, key, what in r["viol"]:
@@ -176,7 +222,7 @@ def run(ctx, prop, n_quick, n_thorough):
         slices.append((len(lines), len(ml), seed, spec, r))
         lines += ml
     try:
-        outs = common.run_driver(DRIVER, lines)
+        outs = run_driver_sharded(lines, [st for st, *_ in slices])
     except Exception as e:
         ctx.disagree({"driver": DRIVER}, None, None, f"model driver failed: {e}")
         return
@@ -192,6 +238,23 @@ def run(ctx, prop, n_quick, n_thorough):
     ctx.traces_validated += ok
     ctx.extra_cov["file_token_engine"] = {"runs": len(results), "token_ops_compared": sum(len(r["oplog"]) for *_, r in results),
                                           "traces_equal": ok, "flags": flags}
+
+
+def run_driver_sharded(lines, starts, shards=12):
+    """the runs are independent (each begins with an init line): pipe them through several driver processes"""
+    from concurrent.futures import ThreadPoolExecutor
+    if len(lines) < 20000 or len(starts) < shards:
+        return common.run_driver(DRIVER, lines)
+    per = (len(lines) + shards - 1) // shards
+    cuts, nxt = [0], per
+    for st in starts:
+        if st >= nxt:
+            cuts.append(st)
+            nxt = st + per
+    cuts.append(len(lines))
+    with ThreadPoolExecutor(max_workers=shards) as ex:
+        parts = list(ex.map(lambda ab: common.run_driver(DRIVER, lines[ab[0]:ab[1]]), zip(cuts[:-1], cuts[1:])))
+    return [o for part in parts for o in part]
 
 
 def _req(spec, f):
@@ -259,7 +322,7 @@ def prove(ctx):
 
 
 def correspond(ctx):
-    run(ctx, PROP, 450, 12000)
+    run(ctx, PROP, 450, 8000)
 
 
 def search(ctx):
